@@ -1443,7 +1443,7 @@ def python_snippet(case):
     return ("import sys; sys.path.insert(0, '/verif/tools'); from props import c12; "
             "print(c12._hist_impl(%r))" % (case,))
 
-LEVEL_TEXT = ('Machine-checked Coq theorems (39, all closed under the global context) about a line-by-line Gallina model of find_orfs, '
+LEVEL_TEXT = ('Machine-checked Coq theorems (40, all closed under the global context) about a line-by-line Gallina model of find_orfs, '
               '_frame_start, _inds2orf, the codon locator of match(), BioSeq/BioBasket.find_orfs and the len_* filters. Every clause of the '
               'property text is a theorem about the model: '
               '(1) every mode, every sequence, rf, minlen, no hypothesis: the fuelled pairing loop terminates within |starts|+|stops|+1 '
@@ -1481,7 +1481,9 @@ LEVEL_TEXT = ('Machine-checked Coq theorems (39, all closed under the global con
               'in-frame GTG hidden behind an out-of-frame ATG by the non-overlapping finditer). ARBITRARY regular expressions as start/stop (model/C12_Rx.v on top of the regex-tree layer '
               'of C13: trees, gapify incl. the character-class unit of 7e33c72, backtracking matcher): for every tree, gap option, rf form '
               '(repeated and out-of-range frames too) and mode, without hypothesis, the call raises the documented class or returns ORFs '
-              'inside the sequence that respect minlen and identify a requested frame (C12_rx_invariants). The default-settings clause against the declarative predicate '
+              'inside the sequence that respect minlen and identify a requested frame (C12_rx_invariants); without repeated frames every mode '
+              'equals its specification over the strictly increasing match lists - for need_start="always" under the hypothesis that '
+              'every start match begins before the end of the last residue (C12_rx_modes_spec). The default-settings clause against the declarative predicate '
               'is_orf(text, frame, a, e), both strands, any frame list: sound, complete, no duplicates, increasing order '
               '(C12_default_is_orf) with residue offset = frame and residue count divisible by three (C12_is_orf_residues). Every rf form: '
               'names, ints, tuples, one numpy integer / float / None (TypeError), another string (AssertionError), and tuples with REPEATED '
@@ -1498,7 +1500,7 @@ LEVEL_NOTE = ('Trusted: Coq kernel/vm_compute, the correspondence harness, CPyth
               'BioSeq/BioBasket.find_orfs glue and FeatureList.filter(len_<op>) by its meaning (the tie to /repo is the differential '
               'correspondence, i.e. testing). Custom start/stop patterns are modelled as alternations of literal words '
               '(run_C12x, exact specification proved) and as regex trees of C13_Rx (run_C12rx: classes, groups, quantifiers, wildcards; '
-              'only the invariants are proved for them, the exact result is compared with sugar on every case; trees must be rx_ok and '
+              'the invariants and the mode specifications over the match lists are proved for them, what the match lists are is the matter of C13 and is compared with sugar on every case; trees must be rx_ok and '
               'not nullable, gap strings over "-.~"); with custom words that can overlap one another '
               're.finditer hides in-frame codons behind out-of-frame ones - the model reproduces it, the codon-scan oracle is applied '
               'to non-overlapping three-letter sets only; custom sets are outside the property text). Gap strings: non-empty, over '
